@@ -17,6 +17,11 @@ static int hex_field(const char *s, char *dst, size_t cap) {
   return (int)n;
 }
 
+static void recvstate(void) {
+  sdk_out("RECVSTATE kept=%ld err=%d gap=%d", (long)(supla_esp_mqtt_vars->client.recv_buffer.curr - supla_esp_mqtt_vars->client.recv_buffer.mem_start),
+          supla_esp_mqtt_vars->client.error != MQTT_OK ? 1 : 0, (int)supla_esp_mqtt_vars->recv_gap);
+}
+
 int main(void) {
   static unsigned char buf[70000];
   sdk_log_echo = 0;
@@ -59,9 +64,14 @@ int main(void) {
           supla_esp_mqtt_conn_recv_cb(&supla_esp_mqtt_vars->esp_conn, p, (unsigned short)n);
           free(p);
           sdk_out("CLIENTERR %d", (int)supla_esp_mqtt_vars->client.error);
+          if (fw_hook_mqtt_log) recvstate();
         }
       } else if (!strcmp(op, "adv") && ops_ntok == 2) {
         sdk_advance_us(strtoull(ops_tok[1], 0, 10) * 1000ull);
+        if (fw_hook_mqtt_log && supla_esp_mqtt_vars) recvstate();
+      } else if (!strcmp(op, "mqlog") && ops_ntok == 2) { /* print the hooks of __mqtt_recv and the buffer state */
+        fw_hook_mqtt_log = atoi(ops_tok[1]);
+        if (fw_hook_mqtt_log && supla_esp_mqtt_vars) recvstate();
       } else if (!strcmp(op, "unpack") && ops_ntok == 2) {
         /* mqtt_unpack_response on an exact-size heap buffer */
         long n = ops_hex(ops_tok[1], buf, sizeof(buf));
